@@ -1,4 +1,5 @@
 """C09 -- safe Thrift decoders are total: arbitrary bytes give a value or an error."""
+import nesting
 import json, os, random, re
 import common as c
 import gen, gencheck, faults
@@ -41,7 +42,8 @@ def run(rep, tier, seed, replay):
 
     def add(ty, t, proto, mode, kind, detail, data, site):
         rid = len(reqs)
-        r = {"id": rid, "ty": ty, "proto": proto, "mode": mode, "op": "decode", "input": data, "alloc_limit": alloc_limit(len(data))}
+        n = nesting.size(data) if isinstance(data, dict) else len(data)
+        r = {"id": rid, "ty": ty, "proto": proto, "mode": mode, "op": "decode", "input": data, "alloc_limit": alloc_limit(n)}
         if t is not None:
             r["t"] = t
         if mode == "async":
@@ -85,9 +87,57 @@ def run(rep, tier, seed, replay):
                     meta[-1]["def"] = "union" if cs["isunion"] else "struct"
                     meta[-1]["schema"] = cs["sid"]
                     meta[-1]["idl_type"] = cs["ty"]
+    # (4) fault action Nest(kind, depth): a value nested through one kind of composite, far beyond the documented skip budget of
+    # 64, handed (a) to each protocol's own skipper, (b) to generated decoders as a field no schema declares (with and without
+    # retention), (c) to the generated decoder of a recursive struct as KNOWN fields.  Depth 3 is the generator's sanity probe.
+    depths = [3, 63, 64, 65, 1000, 100000] if tier == "quick" else [3, 63, 64, 65, 66, 1000, 10000, 100000, 250000]
+    sids = sorted({cs["sid"] for cs in cases})[:2]
+    hosts = []
+    for sid in sids:
+        for suffix in ("", "k"):
+            for tyname in ("MutA", "Ex1", "Rec1", "U1"):
+                path = gen.find_type(units, sid + suffix, tyname)
+                if path:
+                    hosts.append((path, suffix, tyname))
+    n_nest0 = len(reqs)
+    for proto in ("bin", "binle", "compact"):
+        for kind in nesting.KINDS:
+            for d in depths:
+                if kind != "rec1":
+                    v = nesting.value(kind, d, proto)
+                    for mode in ("sync", "async"):
+                        add("@rt", nesting.WIRE[kind], proto, mode, "nest", [kind, d], v, "runtime-skip")
+                        reqs[-1]["op"] = "skip"
+                        reqs[-1]["sched"] = "whole"
+                    if d in (3, 65, 100000):
+                        fld = nesting.as_unknown_field(kind, d, proto)
+                        for path, suffix, tyname in hosts:
+                            if tyname == "Rec1":
+                                continue
+                            if tyname == "U1":      # a union needs its one member: 1: i64 n = 0, then the undeclared field
+                                member = [0x16, 0] if proto == "compact" else [10] + ([1, 0] if proto == "binle" else [0, 1]) + [0] * 8
+                                fld = dict(nesting.as_unknown_field(kind, d, proto))
+                                fld["head"] = member + fld["head"]
+                            else:
+                                fld = nesting.as_unknown_field(kind, d, proto)
+                            for mode in ("sync", "async"):
+                                add(path, None, proto, mode, "nest", [kind, d, "unknown-field", "keep" if suffix else "skip"], fld, "generated:nest-unknown")
+                                reqs[-1]["sched"] = "whole"
+                                meta[-1]["def"] = "union" if tyname == "U1" else "struct"
+                else:
+                    v = nesting.value(kind, d, proto)
+                    for path, suffix, tyname in hosts:
+                        if tyname != "Rec1":
+                            continue
+                        for mode in ("sync", "async"):
+                            add(path, None, proto, mode, "nest", [kind, d, "known-field", "keep" if suffix else "skip"], v, "generated:nest-known")
+                            reqs[-1]["sched"] = "whole"
+                            meta[-1]["def"] = "struct"
+    n_nest = len(reqs) - n_nest0
     out = gen.run_worker(reqs, tag="c09")
     n_crash = 0
     maxalloc = 0
+    nest_sanity = [0, []]
     for i, m in enumerate(meta):
         r = out.get(i, {"ok": False, "err": "harness: no response", "tool_error": True})
         if r.get("tool_error"):
@@ -95,6 +145,10 @@ def run(rep, tier, seed, replay):
         maxalloc = max(maxalloc, (r.get("alloc") or {}).get("max", 0))
         bad = classify_err(r)
         data = reqs[i]["input"]
+        if m["fault"] == "nest" and m["detail"][1] == 3:
+            nest_sanity[0] += 1
+            if not r.get("ok"):
+                nest_sanity[1].append({"decoder": m["ty"], "proto": m["proto"], "mode": m["mode"], "nest": m["detail"], "observed": str(r.get("err"))[:120]})
         if bad is None and m["fault"] == "truncate" and r.get("ok") and (m["t"] == 12 or m["site"] != "runtime-generic"):
             # every strict prefix of a valid struct encoding is rejected with an error
             bad = "prefix-accepted"
@@ -106,9 +160,13 @@ def run(rep, tier, seed, replay):
         msg = "pending-bool" if "pending bool" in str(r.get("err")) else "-"
         cls = {"check": bad, "site": site, "mode": m["mode"], "fault": fault if bad != "prefix-accepted" else "truncate",
                "def": m.get("def", "-"), "msg": msg}
+        if fault == "nest":
+            cls["nest"] = m["detail"][0]
+            cls["via"] = m["detail"][2] if len(m["detail"]) > 2 else "skip"
+            cls["proto"] = m["proto"]
         rep.violation(cls, {"decoder": m["ty"], "schema": m.get("schema"), "idl_type": m.get("idl_type"), "wire_type": m["t"],
                             "proto": m["proto"], "mode": m["mode"], "fault": [m["fault"], m["detail"]], "input": data,
-                            "observed": {k: v for k, v in r.items() if k != "alloc"}, "alloc_limit": alloc_limit(len(data))})
+                            "observed": {k: v for k, v in r.items() if k != "alloc"}, "alloc_limit": reqs[i]["alloc_limit"]})
     # panics / crashes seen on the WELL-FORMED inputs of the generated corpus belong here too
     extra = gencheck.add_tagged(rep, "C09", tier, seed)
     # runtime interoperability cases that panicked (C03's wire cases)
@@ -121,10 +179,13 @@ def run(rep, tier, seed, replay):
         "rule": "one case = (decoder, protocol, sync/async, fault applied to a valid encoding): every truncation point, "
                 + ("24 seeded" if tier == "quick" else "all") + " single-bit flips per message for the runtime decoders, every length / count / "
                 "type / id position of the TLC-computed encoding map overwritten with {-1,0,1,remaining-1,remaining+1,i32::MAX,u32::MAX} "
-                "(compact: varints incl. unterminated); run in an isolated worker with a counting allocator that refuses any single "
+                "(compact: varints incl. unterminated); nesting through every composite kind to depth 100 000 (skippers, unknown fields of "
+                "generated decoders, known fields of a recursive struct); run in an isolated worker with a counting allocator that refuses any single "
                 "request above 1 MiB + 1024 x input length",
         "samples": [{"meta": meta[len(meta) // 2], "input": reqs[len(meta) // 2]["input"][:40]}],
         "fault_positions_from_tlc": fst, "vectors": len(vecs), "generated_types_faulted": len(take),
+        "nesting_probes": {"requests": n_nest, "depths": depths, "kinds": list(nesting.KINDS),
+                           "depth3_sanity_probes": nest_sanity[0], "depth3_not_ok": nest_sanity[1][:10]},
         "largest_single_allocation_observed": maxalloc, "violations_before_known_filter": n_crash,
         "exhaustive": False,
     }
